@@ -815,7 +815,9 @@ int main(int argc, char **argv) {
     continue;
   }
 
-  if (ld_args.len > 0)
+  // Link only if linking was asked for; -c, -S, -E and -M stop earlier,
+  // and object files given on such a command line are left unused.
+  if (ld_args.len > 0 && !opt_c && !opt_S && !opt_E && !opt_M)
     run_linker(&ld_args, opt_o ? opt_o : "a.out");
   return 0;
 }
